@@ -39,7 +39,7 @@ IsOvPos(op, x, y) ==
     [] op = "sub" ->
          CAnd(Tri(MaxI(PosDigits(x.t), NegDigits(y.t)) + 1 > PosDigits(r)),
          CAnd(CCmp("lt", y, zy),
-              CCmp("gt", x, CConv(CBin("add", TMaxV(y.t), y), r))))
+              CCmp("gt", x, CBin("add", TMaxV(r), y))))
     [] op = "mul" ->
          CAnd(Tri(PosDigits(x.t) + PosDigits(y.t) > PosDigits(r)),
               CIf(CCmp("gt", x, z),
@@ -70,13 +70,13 @@ IsOvNeg(op, x, y) ==
          CAnd(Tri(PosDigits(x.t) + PosDigits(y.t) > PosDigits(r)),
               CIf(CCmp("lt", x, z),
                   CAnd(CCmp("gt", y, zy), CCmp("gt", CBin("div", TMinV(r), y), x)),
-                  CAnd(CCmp("lt", y, zy), CCmp("lt", CBin("div", TMinV(r), y), x))))
+                  CAnd(CCmp("lt", y, zy), CAnd(CCmp("ne", y, CConv(IntLit(-1), y.t)), CCmp("lt", CBin("div", TMinV(r), y), x)))))
     [] op = "div" -> "F"
     [] op = "shl" ->
          IF x.t.s = 0 THEN "F"
          ELSE CIf(CCmp("lt", x, IntLit(0)),
                   CIf(CCmp("gt", y, IntLit(0)),
-                      CIf(CCmp("lt", y, IntLit(PosDigits(r))),
+                      CIf(CCmp("le", y, IntLit(PosDigits(r))),
                           CCmp("ne", CShift("shr", x, CBin("sub", IntLit(PosDigits(r)), y)), IntLit(-1)),
                           "T"),
                       "F"),
@@ -92,6 +92,7 @@ PortableBin(op, x, y) ==
     ELSE LET n == IsOvNeg(op, x, y) IN
          IF n = "UB" THEN OSig("ub", r)
          ELSE IF n = "T" THEN OSig("neg", r)
+         ELSE IF op = "shl" /\ IsZero(x.v) THEN OVal(r, Zero)          \* (lhs == Lhs{0}) ? result{} : lhs << rhs
          ELSE LET v == NativeBin(op, x, y) IN IF v.ub THEN OSig("ub", r) ELSE OVal(r, v.v)
 
 \* measure_polarity and the guesses of builtin_overflow.h
@@ -108,10 +109,10 @@ AsCodedBin(path, op, x, y) ==
 \* unary minus (same on both paths)
 AsCodedNeg(x) ==
     LET r == OpResult1("neg", x.t)
-        p == IF x.t.s = 1 THEN CCmp("lt", x, CUn("neg", TMaxV(x.t))) ELSE "F"
+        p == IF r.s = 1 THEN CCmp("lt", x, CUn("neg", TMaxV(r))) ELSE "F"
     IN IF p = "UB" THEN OSig("ub", r)
        ELSE IF p = "T" THEN OSig("pos", r)
-       ELSE IF x.t.s = 0 /\ ~IsZero(x.v) THEN OSig("neg", r)
+       ELSE IF r.s = 0 /\ ~IsZero(x.v) THEN OSig("neg", r)
        ELSE LET v == CUn("neg", x) IN IF v.ub THEN OSig("ub", r) ELSE OVal(r, v.v)
 
 \* integer -> integer conversion to type d (same on both paths)
